@@ -121,7 +121,8 @@ def parseViewOp (k a : String) : Option ViewOp :=
   | "transposeAxes" => (parseNatList "," a).map .transposeAxes
   | "ravel" => some .ravel
   | "expandDims" => a.toNat?.map .expandDims
-  | "reshape" => (parseIntList a).map .reshape
+  | "reshape" => (parseIntList a).map (ViewOp.reshape · false)
+  | "reshapeList" => (parseIntList a).map (ViewOp.reshape · true)
   | "repeat" => a.toNat?.map .repeat_
   | _ => none
 
